@@ -204,8 +204,7 @@ class Element(ABC):
     def __copy__(self) -> "Element":
         return (
             type(self)()
-            .set_lower_limits(**self.get_lower_limits())
-            .set_upper_limits(**self.get_upper_limits())
+            ._set_limits(self.get_lower_limits(), self.get_upper_limits())
             .set_values(**self.get_values())
             .set_fixed(**self.are_fixed())
             .set_label(self._label)
@@ -542,8 +541,10 @@ class Element(ABC):
             The values can be anything.
         """
         self.set_values(**self.get_default_values(*args, **kwargs))
-        self.set_lower_limits(**self.get_default_lower_limits(*args, **kwargs))
-        self.set_upper_limits(**self.get_default_upper_limits(*args, **kwargs))
+        self._set_limits(
+            self.get_default_lower_limits(*args, **kwargs),
+            self.get_default_upper_limits(*args, **kwargs),
+        )
         self.set_fixed(**self.are_fixed_by_default(*args, **kwargs))
 
     def reset_parameter(self, key: str):
@@ -556,8 +557,10 @@ class Element(ABC):
             A string key corresponding to a parameter.
         """
         self.set_values(key, self.get_default_value(key))
-        self.set_lower_limits(key, self.get_default_lower_limit(key))
-        self.set_upper_limits(key, self.get_default_upper_limit(key))
+        self._set_limits(
+            {key: self.get_default_lower_limit(key)},
+            {key: self.get_default_upper_limit(key)},
+        )
         self.set_fixed(key, self.is_fixed_by_default(key))
 
     def are_fixed(self, *args, **kwargs) -> Dict[str, bool]:
@@ -693,6 +696,19 @@ class Element(ABC):
                 raise TypeError(f"Expected a boolean instead of {value=}")
 
             self._parameter_fixed[key] = value
+
+        return self
+
+    def _set_limits(
+        self,
+        lower_limits: Dict[str, float],
+        upper_limits: Dict[str, float],
+    ) -> "Element":
+        # The current limits may lie entirely above or below the new ones, so
+        # the lower limits are cleared first to keep each step valid.
+        self.set_lower_limits(**{key: -float("inf") for key in lower_limits})
+        self.set_upper_limits(**upper_limits)
+        self.set_lower_limits(**lower_limits)
 
         return self
 
@@ -1675,8 +1691,7 @@ class Container(Element):
                     for k, v in self.get_subcircuits().items()
                 },
             )
-            .set_lower_limits(**self.get_lower_limits())
-            .set_upper_limits(**self.get_upper_limits())
+            ._set_limits(self.get_lower_limits(), self.get_upper_limits())
             .set_fixed(**self.are_fixed())
             .set_label(self._label)
         )
@@ -1694,8 +1709,7 @@ class Container(Element):
                         for k, v in self.get_subcircuits().items()
                     },
                 )
-                .set_lower_limits(**self.get_lower_limits())
-                .set_upper_limits(**self.get_upper_limits())
+                ._set_limits(self.get_lower_limits(), self.get_upper_limits())
                 .set_fixed(**self.are_fixed())
                 .set_label(self._label)
             )
